@@ -217,16 +217,18 @@ TypeOK ==
 Done  == pc = "done"
 Fresh == pc = "loop" /\ mask = {}     \* the initial states (every evaluated mask is non-empty)
 
-\* properties of the input alone are checked once per input: on its final state
-\* (TLC evaluates initial states in a single thread, successor states on all workers)
-EssBounds     == Done => EssBoundsOf(w)
-EssScale      == Done => EssScaleOf(w)
-EssUniform    == Done => EssUniformOf(w)
-EssFracBounds == Done => EssFracBoundsOf(w)
-SortedOK      == Done => \A r \in 0..(N - 1) : OrderStat(r) = OrderStatByCount(r)
-ExactTieOnly  == Done => \A k \in 0..(bins - 1) : ExactTieAt(k)
+\* properties of (w, bins) alone are checked once per (w, bins): on the final state of the behaviour
+\* with the smallest ess.  (TLC evaluates initial states in a single thread, successor states on all
+\* workers; every behaviour has exactly one final state.)
+Once == Done /\ \A e \in EssPct : essp <= e
+EssBounds     == Once => EssBoundsOf(w)
+EssScale      == Once => EssScaleOf(w)
+EssUniform    == Once => EssUniformOf(w)
+EssFracBounds == Once => EssFracBoundsOf(w)
+SortedOK      == Once => \A r \in 0..(N - 1) : OrderStat(r) = OrderStatByCount(r)
+ExactTieOnly  == Once => \A k \in 0..(bins - 1) : ExactTieAt(k)
 \* a strictly interpolated threshold lies strictly between its two neighbours
-InterpStrict  == Done => \A k \in 0..(bins - 1) :
+InterpStrict  == Once => \A k \in 0..(bins - 1) :
                     (Gn(k) # 0 /\ LoVal(k) < HiVal(k)) =>
                         (LoVal(k) * D < ThetaN(k) /\ ThetaN(k) < HiVal(k) * D)
 
